@@ -387,6 +387,7 @@ def main(argv):
                 return 1
             return r.returncode
         if cmd in props.CHECKS:
+            os.environ['VERIF_TIER_RUNNING'] = tier     # suites size their time limits by the tier
             t0 = time.time()
             rc = props.CHECKS[cmd](tier, seed)
             print('check %s tier=%s seed=%d finished in %.1fs with exit %d' % (cmd, tier, seed, time.time() - t0, rc))
